@@ -139,7 +139,7 @@ class PlatformService():
             else:
                 self._protocolVersion = -1
                 logger.info('Protocol version (crt): {}'.format(self.get_protocol_version()))
-                self._callback()
+                self._platform_info_fetched()
 
     def _platform_callback(self, pk):
         if pk.channel == VERSION_COMMAND:
@@ -148,4 +148,11 @@ class PlatformService():
             if pk.data[0] == VERSION_GET_PROTOCOL:
                 self._protocolVersion = pk.data[1]
                 logger.info('Protocol version (platform): {}'.format(self.get_protocol_version()))
-                self._callback()
+                self._platform_info_fetched()
+
+    def _platform_info_fetched(self):
+        # Only report once per fetch: a duplicated reply must not restart the connection setup
+        callback = self._callback
+        self._callback = None
+        if callback is not None:
+            callback()
